@@ -3,10 +3,7 @@ fn main() {
     let args = vcore::parse_args();
     match args.property.as_str() {
         "C12" => runtime::c12::run(&args),
-        "C10" => vcore::inconclusive(
-            "C10: the node-runtime driver (runtime/run_cases.mjs kind normalize_and_read, runtime::node) is ready; \
-             the case producer (project generator + conforming responses) is not built yet",
-        ),
+        "C10" => runtime::c10::run(&args),
         other => vcore::inconclusive(&format!("runtime: unknown property {other}")),
     }
 }
